@@ -1,11 +1,20 @@
 """C20 -- Averager counts every add once; throttle never exceeds its rate.
 
-Averager: 2-3 threads (own Cache objects / one shared Cache / FanoutCache) running programs of
-add/get/pop under the deterministic scheduler (timeout 0), enumerated and random schedules.
-MONITOR (no model): ledger -- every added value (distinct powers of two) must be accounted for exactly
-once by the pops (plus one final pop made by the harness): an exact cover must exist; every get must
-report the mean of some set of added values.  CORRESPONDENCE: atomic order read off the scheduler log
-(COMMIT of add/pop on the key shard, the lock-free SELECT of get) -> model/Recipes.v check_avg.
+Averager: 1-3 threads (own Cache objects / one shared Cache / FanoutCache) running programs of
+add/get/pop under the deterministic scheduler (timeout 0), enumerated and random schedules, on four cache
+configurations (default; statistics=True, least-recently-used, least-frequently-used: there a lookup needs the write
+lock, so Averager.get meets the locks held by add/pop -- `avg_contention` calls it at every point of three adds)
+and three classes of values (distinct +-2^i; small integers with zeros and cancelling values; the same over binary
+fractions), see VALUE_CLASSES.
+MONITOR (no model): (1) reports -- there must be an order of the calls, consistent with their real-time order
+(call A before call B when A returned before B was called), in which every get and pop returns total/count of the
+adds since the last pop (None iff there are none) and the pop made by the harness after the run returns what is
+left (`avg_linearizable`); for a lone client this is the program order, checked call by call together with the
+stored (total, count) (`avg_sequential`); no call may raise (a Timeout is a call that gave up on a held lock).
+(2) ledger (values +-2^i only) -- every added value must be accounted for exactly once by the pops: an exact cover
+must exist; every get must report the mean of some set of added values.  CORRESPONDENCE (integer values): atomic
+order read off the scheduler log (COMMIT of add/pop -- and of get where it is a transaction -- on the key shard, the
+lock-free SELECT of get otherwise) -> model/Recipes.v check_avg.
 
 throttle: 1-3 callers under a virtual clock supplied as time_func/sleep_func (time advances only when a
 sleeping caller is resumed, never while an admission is in flight), random arrival gaps, counts 1-5 and
@@ -34,7 +43,8 @@ COQ_PROP = 'C20'
 LEVEL = 'proof'
 TRANSLATE = ['recipes']
 TRUSTED = [
-    'atomic layer: Averager.add (one transact block), Averager.pop (one atomic Cache.pop) and Averager.get (one lock-free read) are single steps of model/Recipes.v (C05/C06 assumed)',
+    'atomic layer: Averager.add (one transact block), Averager.pop (one atomic Cache.pop) and Averager.get (one lock-free read; with statistics=True or the least-recently-used / least-frequently-used policy one write transaction, placed at its COMMIT) are single steps of model/Recipes.v (C05/C06 assumed)',
+    'Averager report monitor: real-time order of two calls is read off the scheduler (a call is invoked when its client\'s previous call has returned, and has returned once its last event was granted; one client runs between two grants); added values are integers or multiples of 1/4 of magnitude at most 2^8, at most 9 per run, so every total is exact in binary64 in any order and total/count is the same single division in the implementation and in the monitor',
     'translator templates of tools/emit_recipes.py for Averager and throttle (AST equality outside the holes)',
     'throttle arithmetic is exact over Q in the model; binary64 rounding in the implementation is not modelled (the harness uses values on which it is exact and the exact comparison of every tally would expose any rounding)',
     'the virtual clock of harness/props/c20.py: time_func reads it, sleep_func suspends the caller until it is resumed at or after its wake time',
@@ -45,11 +55,38 @@ ASSUMPTIONS = [
     'each cache operation and each transact block is atomic and isolated (properties C05/C06)',
     'throttle: count >= 1, seconds > 0, clock readings of successive transact blocks never decrease; a start is timestamped with the clock reading of the block that admitted it (the harness lets no time pass between admission and start)',
     '"every call is eventually let through": proved for a lone caller (after at most one sleep of the computed delay); under contention it needs a fair scheduler and is not claimed',
-    'Averager totals are integers in the model (the harness adds integers; binary64 sums of them are exact); the reported mean is compared as the correctly rounded quotient',
+    'Averager totals are integers in the model (runs that add integers -- including zeros and values that cancel -- are compared with it; binary64 sums of them are exact); the reported mean is compared as the correctly rounded quotient; runs that add binary fractions are decided by the monitors only',
+    'Averager configurations: statistics and the least-recently-used / least-frequently-used policies are run with the default size_limit (1 GB), so the averager key is never evicted; the lock timeout is 0 under the scheduler (a blocked BEGIN fails at once, a retrying call spins through a scheduling point), which stands for any finite timeout shorter than the time the lock is held',
 ]
 
 KEY = 'K'
 IMPORTS = ['DCPrelude', 'RecipesBase', 'Gen_Recipes', 'Recipes']
+
+# cache configurations the Averager runs on.  With hit/miss statistics or an access-recording eviction policy a lookup is a WRITE
+# transaction (Cache.get needs the write lock), so Averager.get contends with the transactions of add/pop instead of reading lock-free.
+# size_limit stays at its default of 1 GB, so nothing is ever evicted (assumption of the recipe).
+CONFIGS = {
+    'default': {},
+    'statistics': {'statistics': True},
+    'lru': {'eviction_policy': 'least-recently-used'},
+    'lfu': {'eviction_policy': 'least-frequently-used'},
+}
+
+
+def avg_caches(variant, n, d, shards, config='default'):
+    kw = dict(timeout=0, eviction_policy='none')
+    kw.update(CONFIGS[config])
+    if variant == 'own':
+        return [diskcache.Cache(d, **kw) for _ in range(n)]
+    if variant == 'shared':
+        c = diskcache.Cache(d, **kw)
+        return [c] * n
+    if variant == 'fanout':
+        c = diskcache.FanoutCache(d, shards=shards, **kw)
+        return [c] * n
+    if variant == 'fanout-own':
+        return [diskcache.FanoutCache(d, shards=shards, **kw) for _ in range(n)]
+    raise ValueError(variant)
 
 
 # ---------------------------------------------------------------------------
@@ -62,7 +99,7 @@ def avg_execute(case, d, max_steps=6000):
     clock = instr.Clock(1000.0)
     out = {}
     with instr.Installed(clock):
-        caches = base.make_caches(case['variant'], n, d, case.get('shards', 1))
+        caches = avg_caches(case['variant'], n, d, case.get('shards', 1), case.get('config', 'default'))
         s = sched.Scheduler(clock, max_steps=max_steps)
 
         def prog(i):
@@ -93,7 +130,7 @@ def avg_execute(case, d, max_steps=6000):
     return out
 
 
-def avg_steps(out, n):
+def avg_steps(out, n, case_config='default'):
     per = base.client_events(out['log'], n)
     ns, k = out['nshards'], out['kshard']
     steps = []
@@ -103,18 +140,19 @@ def avg_steps(out, n):
             raise base.Shape('client %d produced no record (%s)' % (cid, out['errors'][cid]))
         for op, e0, e1, res in rec:
             evs = per[cid][e0:e1]
-            if op == 'get':
-                if len(evs) != 1 or evs[0][1] != 'sql:SELECT':
-                    raise base.Shape('Averager.get with events %r' % [e[1] for e in evs])
-                steps.append((evs[0][0], cid, 'get', res))
+            if op == 'get' and [e[1] for e in evs] == ['sql:SELECT']:
+                steps.append((evs[0][0], cid, 'get', res))           # the lock-free lookup of the default configuration
                 continue
+            if op == 'get' and case_config == 'default':
+                raise base.Shape('Averager.get with events %r' % [e[1] for e in evs])
+            # statistics / least-recently-used / least-frequently-used: the lookup is one write transaction (after BEGINs that failed)
             runs = base.commit_runs(evs)
             if len(runs) != 1:
-                raise base.Shape('Averager.%s with %d transactions' % (op if op == 'pop' else 'add', len(runs)))
+                raise base.Shape('Averager.%s with %d transactions' % (op if op in ('pop', 'get') else 'add', len(runs)))
             gi, what = base.lin_point(runs[0], ns, k)
             if what != 'sql:COMMIT':
                 raise base.Shape('Averager transaction ended by ' + what)
-            steps.append((gi, cid, 'pop' if op == 'pop' else 'add', res))
+            steps.append((gi, cid, op if op in ('pop', 'get') else 'add', res))
     steps.sort()
     return steps
 
@@ -135,21 +173,146 @@ def subsets_matching(values, m):
     return out
 
 
+def avg_mean(total, count):
+    """what the property says a report is: None when nothing was added since the last pop, else total / count"""
+    return None if count == 0 else total / count
+
+
+def same_report(got, want):
+    if got is None or want is None:
+        return got is None and want is None
+    return got == want
+
+
+def avg_calls(case, out):
+    """the calls of a run with real-time stamps in scheduler steps: a call is invoked when the previous call of its client has
+    returned (inv = number of events granted so far) and has returned once its last event was granted (resp); call A precedes
+    call B in real time iff resp(A) <= inv(B) (only one client runs between two grants)"""
+    n = len(case['progs'])
+    per = base.client_events(out['log'], n)
+    calls = []
+    for cid in range(n):
+        prev = 0
+        for op, e0, e1, res in out['records'][cid]:
+            evs = per[cid][e0:e1]
+            resp = evs[-1][0] + 1 if evs else prev
+            calls.append({'cid': cid, 'op': op, 'res': res, 'inv': prev, 'resp': resp})
+            prev = resp
+    return calls
+
+
+def show_op(op):
+    return op if op in ('get', 'pop') else 'add(%r)' % (op[1],)
+
+
+def avg_sequential(case, out):
+    """one client: after every call, get() / pop() == total/count of the adds since the last pop (None iff there are none);
+    total is accumulated left to right from 0.0 exactly as the property's 'total' is"""
+    total, count, since = 0.0, 0, []
+    for k, (op, e0, e1, res) in enumerate(out['records'][0]):
+        if op in ('get', 'pop'):
+            want = avg_mean(total, count)
+            if not same_report(res, want):
+                return [('sequential-report:' + op, 'call %d of a lone client: %s() returned %r but the adds since the last pop are %r: total/count = %r' % (
+                    k, op, res, since, want))]
+            if op == 'pop':
+                total, count, since = 0.0, 0, []
+        else:
+            total += op[1]
+            count += 1
+            since.append(op[1])
+    want = avg_mean(total, count)
+    if not same_report(out['final_pop'], want):
+        return [('sequential-report:pop', 'the pop after the run returned %r but the adds since the last pop are %r: total/count = %r' % (out['final_pop'], since, want))]
+    stored = None if out['final'] is None else tuple(out['final'])
+    if (stored is None) != (count == 0) or (stored is not None and (stored[0] != total or stored[1] != count)):
+        return [('sequential-report:stored', 'stored (total, count) is %r after adds %r since the last pop' % (out['final'], since))]
+    return []
+
+
+def avg_linearizable(calls, final_pop):
+    """is there a total order of the calls, consistent with their real-time order, in which every get and pop reports
+    total/count of the adds ordered after the last pop before it (None iff there are none), pop resets, and the pop made by
+    the harness after the run reports what is left?"""
+    N = len(calls)
+    preds = []
+    for b in calls:
+        m = 0
+        for j, a in enumerate(calls):
+            if a is not b and a['resp'] <= b['inv']:
+                m |= 1 << j
+        preds.append(m)
+    full = (1 << N) - 1
+    dead = set()
+
+    def go(mask, total, count):
+        if mask == full:
+            return same_report(final_pop, avg_mean(total, count))
+        if (mask, total, count) in dead:
+            return False
+        for i in range(N):
+            if mask >> i & 1 or preds[i] & ~mask:
+                continue
+            c = calls[i]
+            if c['op'] == 'get':
+                ok = same_report(c['res'], avg_mean(total, count)) and go(mask | 1 << i, total, count)
+            elif c['op'] == 'pop':
+                ok = same_report(c['res'], avg_mean(total, count)) and go(mask | 1 << i, 0.0, 0)
+            else:
+                ok = go(mask | 1 << i, total + c['op'][1], count + 1)
+            if ok:
+                return True
+        dead.add((mask, total, count))
+        return False
+    return go(0, 0.0, 0)
+
+
+def avg_unexplained(calls):
+    """a short diagnosis for the message (not a decision): lookups that reported 'no data' although some add had returned
+    before they were called and no pop could have come in between"""
+    pops = [c for c in calls if c['op'] == 'pop']
+    hints = []
+    for g in calls:
+        if g['op'] != 'get' or g['res'] is not None:
+            continue
+        done = [a for a in calls if a['op'] not in ('get', 'pop') and a['resp'] <= g['inv']]
+        if done and not any(p['inv'] < g['resp'] for p in pops):
+            hints.append('client %d get() -> None although add of %r had completed before it was called and no pop was called before it returned' % (
+                g['cid'], [a['op'][1] for a in done]))
+    return hints
+
+
 def avg_monitor(case, out):
     bad = []
     if out['overflow']:
         return [('no-progress', 'averager clients did not finish')]
     for i, e in enumerate(out['errors']):
-        if e is not None:
+        if e is not None and e.startswith('Timeout('):
+            bad.append(('client-error:Timeout', 'client %d raised %s: a call of the Averager gave up on a held lock instead of waiting for it, so an add is not '
+                        'counted / the mean of the completed adds is not reported (program of the client: %r)' % (i, e, [show_op(op) for op in case['progs'][i]])))
+        elif e is not None:
             bad.append(('client-error', 'client %d raised %s' % (i, e)))
     if bad:
         return bad
+    # the property itself: every report is total/count of the completed adds since the last pop
+    if len(case['progs']) == 1:
+        bad += avg_sequential(case, out)
+    else:
+        calls = avg_calls(case, out)
+        if not avg_linearizable(calls, out['final_pop']):
+            hints = avg_unexplained(calls)
+            bad.append(('report-not-linearizable', 'no order of the calls that respects their real-time order makes every get/pop report total/count of the '
+                        'adds since the last pop%s; calls (client, call, result, invoked-at-step, returned-at-step): %r, pop after the run: %r' % (
+                            ' [' + '; '.join(hints[:2]) + ']' if hints else '',
+                            [(c['cid'], show_op(c['op']), c['res'], c['inv'], c['resp']) for c in sorted(calls, key=lambda c: (c['inv'], c['cid']))], out['final_pop'])))
     values = [op[1] for p in case['progs'] for op in p if op not in ('get', 'pop')]
-    pops = [res for rec in out['records'] for op, e0, e1, res in rec if op == 'pop'] + [out['final_pop']]
-    gets = [res for rec in out['records'] for op, e0, e1, res in rec if op == 'get']
     for op_res in [res for rec in out['records'] for op, e0, e1, res in rec if op not in ('get', 'pop')]:
         if op_res is not None:
             bad.append(('add-result', 'Averager.add returned %r' % (op_res,)))
+    if case.get('values', 'pow2') != 'pow2':
+        return bad           # the ledger below needs values whose subset sums are all distinct
+    pops = [res for rec in out['records'] for op, e0, e1, res in rec if op == 'pop'] + [out['final_pop']]
+    gets = [res for rec in out['records'] for op, e0, e1, res in rec if op == 'get']
     full = (1 << len(values)) - 1
     cands = []
     for m in pops:
@@ -201,19 +364,56 @@ def avg_check(case, out, steps):
     return 'check_avg %s %s %s %s' % (progs, schedule, fw.clist(tr), final)
 
 
-def avg_gen(rng, n=None, variant=None):
+# value classes of the adds.  'pow2': distinct +-2^i (every subset has its own sum, so the ledger can attribute each value to a pop);
+# 'cancel': small integers with zeros and values that cancel earlier ones, so that the running total passes through exactly 0 while the
+# count does not; 'dyadic': the same with binary fractions (multiples of 1/4 of magnitude at most 2^8: every sum of at most 9 of them is exact
+# in binary64 in any order, and total/count is one correctly rounded division in the implementation and in the monitor alike).
+INT_POOL = [1, -1, 2, 3, -2, 5, -4, 7]
+DYADIC_POOL = [0.5, -0.5, 1.5, -1.0, 0.25, 2.5, -0.75, 3.0, 1.0, -2.25]
+VALUE_CLASSES = ['pow2', 'cancel', 'dyadic']
+MAX_ADDS = 9
+
+
+def value_source(rng, klass):
+    seen, since = [], []
+
+    def nxt():
+        if klass == 'pow2':
+            v = 1 << len(seen)
+            v = v if rng.random() < 0.8 else -v
+        else:
+            r = rng.random()
+            zero = 0 if klass == 'cancel' else 0.0
+            if r < 0.2:
+                v = zero
+            elif r < 0.45 and since:
+                v = -since[-1] + zero               # x then -x
+            elif r < 0.65 and since:
+                v = -sum(since) + zero              # brings the sum of everything added so far (since the reset) to zero
+            else:
+                v = rng.choice(INT_POOL if klass == 'cancel' else DYADIC_POOL)
+        seen.append(v)
+        since.append(v)
+        return v
+    nxt.seen = seen
+    nxt.since = since
+    return nxt
+
+
+def avg_gen(rng, n=None, variant=None, config=None, values=None):
     n = n or rng.choice([2, 2, 3, 3])
     variant = variant or rng.choice(['own', 'own', 'shared', 'fanout', 'fanout-own'])
+    config = config or rng.choice(['default', 'default', 'statistics', 'lru', 'lfu'])
+    values = values or rng.choice(['pow2', 'pow2', 'cancel', 'cancel', 'dyadic'])
     shards = rng.choice([1, 3]) if variant.startswith('fanout') else 1
-    progs, bit = [], 0
+    nxt = value_source(rng, values)
+    progs = []
     for i in range(n):
         p = []
         for _ in range(rng.choice([1, 2, 3, 4])):
             r = rng.random()
-            if r < 0.6 and bit < 9:
-                v = 1 << bit
-                bit += 1
-                p.append(['add', v if rng.random() < 0.8 else -v])
+            if r < 0.6 and len(nxt.seen) < MAX_ADDS:
+                p.append(['add', nxt()])
             elif r < 0.8:
                 p.append('get')
             else:
@@ -223,7 +423,66 @@ def avg_gen(rng, n=None, variant=None):
     schedule = []
     while len(schedule) < L:
         schedule += [rng.randrange(n)] * rng.choice([1, 1, 2, 4, 8])
-    return {'check': 'averager', 'variant': variant, 'shards': shards, 'progs': progs, 'schedule': schedule[:L]}
+    return {'check': 'averager', 'variant': variant, 'shards': shards, 'config': config, 'values': values, 'progs': progs, 'schedule': schedule[:L]}
+
+
+def avg_seq_gen(rng):
+    """a lone client: a sequential history in which nearly every add is followed by a get, over values whose partial sums pass through zero"""
+    variant = rng.choice(['own', 'fanout'])
+    values = rng.choice(['cancel', 'dyadic'])
+    nxt = value_source(rng, values)
+    p = []
+    for _ in range(rng.choice([3, 5, 7])):
+        r = rng.random()
+        if r < 0.75 and len(nxt.seen) < MAX_ADDS:
+            p.append(['add', nxt()])
+            if rng.random() < 0.8:
+                p.append('get')
+        elif r < 0.85:
+            p.append('get')
+        else:
+            p.append('pop')
+            if rng.random() < 0.5:
+                p.append('get')
+            del nxt.since[:]                       # cancelling values refer to the adds since this pop
+    return {'check': 'averager', 'variant': variant, 'shards': rng.choice([1, 3]) if variant == 'fanout' else 1,
+            'config': rng.choice(['default', 'default', 'statistics', 'lru', 'lfu']), 'values': values, 'progs': [p], 'schedule': []}
+
+
+def avg_seq_special():
+    """directed sequential histories: each series is added value by value with a get after every add, then pop, get, and after the
+    pop a value and its negation, each followed by a get; the series start with zeros, cancel in two steps (x, -x, y) and in three
+    (a, b, -(a+b)), over integers and binary fractions"""
+    series = [[0], [0, 0, 6], [0.0, 2.5]]
+    series += [[x, -x, y] for x, y in ((1, 3), (-2, 2), (0.5, 0.25), (-1.5, 4.0))]
+    series += [[a, b, -(a + b)] for a, b in ((1, 2), (1.5, -1.0), (0.25, 0.5), (-3, 7))]
+    cs = []
+    for k, ser in enumerate(series):
+        values = 'cancel' if all(isinstance(v, int) for v in ser) else 'dyadic'
+        p = []
+        for v in ser:
+            p += [['add', v], 'get']
+        p += ['pop', 'get', ['add', ser[-1]], 'get', ['add', -ser[-1]], 'get']
+        variant = ['own', 'fanout'][k % 2]
+        cs.append({'check': 'averager', 'variant': variant, 'shards': 3 if variant == 'fanout' else 1, 'config': 'default',
+                   'values': values, 'progs': [p], 'schedule': []})
+    return cs
+
+
+def avg_contention(step=1):
+    """directed: client 0 adds three values, client 1 looks the mean up twice; client 0 is first granted m events, then client 1
+    three, then round-robin -- for every m up to the length of client 0's program, so that the first lookup is called at every point
+    of every add, in particular inside the transaction of the second and third add when one and two adds have completed.  On the
+    configurations where a lookup needs the write lock (statistics, least-recently-used, least-frequently-used) the lookup then meets a
+    held lock: it has to wait for it (retry), not give up."""
+    cs = []
+    for config in ('statistics', 'lru', 'lfu'):
+        for variant, shards, upto in (('own', 1, 22), ('shared', 1, 22), ('fanout', 1, 22), ('fanout', 3, 34), ('fanout-own', 3, 34)):
+            for m in range(0, upto, step):
+                cs.append({'check': 'averager', 'variant': variant, 'shards': shards, 'config': config, 'values': 'pow2',
+                           'progs': [[['add', 1], ['add', 2], ['add', 4]], ['get', 'get']], 'schedule': [0] * m + [1] * 3,
+                           'family': 'contention'})
+    return cs
 
 
 def avg_enum(L):
@@ -248,6 +507,8 @@ def avg_run(ctx, res, cases, hist, correspond=True):
         n = len(case['progs'])
         hist['avg_contenders'][n] = hist['avg_contenders'].get(n, 0) + 1
         hist['avg_variant'][case['variant']] = hist['avg_variant'].get(case['variant'], 0) + 1
+        for hk, ck, dflt in (('avg_config', 'config', 'default'), ('avg_values', 'values', 'pow2')):
+            hist[hk][case.get(ck, dflt)] = hist[hk].get(case.get(ck, dflt), 0) + 1
         for sig, desc in avg_monitor(case, out):
             res.violations.append(fw.Violation(sig, desc, case))
         nadds = sum(1 for p in case['progs'] for op in p if op not in ('get', 'pop'))
@@ -256,10 +517,22 @@ def avg_run(ctx, res, cases, hist, correspond=True):
             continue
         contended = sum(1 for (c, w, dd) in out['log'] if w == 'sql:BEGIN') > sum(1 for (c, w, dd) in out['log'] if w in ('sql:COMMIT', 'sql:ROLLBACK'))
         hist['avg_contention'] += 1 if contended else 0
+        calls = [c for c in avg_calls(case, out) if c['op'] in ('get', 'pop')]
+        hist['avg_reports_checked'] += len(calls) + 1
+        hist['avg_reports_zero_mean'] += sum(1 for c in calls if c['res'] == 0)
+        if case.get('config', 'default') != 'default':
+            per = base.client_events(out['log'], n)
+            for cid in range(n):
+                for op, e0, e1, r_ in out['records'][cid]:
+                    if op == 'get' and sum(1 for e in per[cid][e0:e1] if e[1] == 'sql:BEGIN') > 1:
+                        hist['avg_lookups_that_waited_for_the_lock'] += 1
         if not correspond:
             continue
+        if not all(isinstance(op[1], int) for p in case['progs'] for op in p if op not in ('get', 'pop')):
+            hist['avg_not_in_model'] += 1          # the model's totals are integers: binary fractions are monitor-only
+            continue
         try:
-            steps = avg_steps(out, n)
+            steps = avg_steps(out, n, case.get('config', 'default'))
             checks.append(avg_check(case, out, steps))
         except base.Shape as e:
             add_dis(res, fw.Violation('event-shape', 'scheduler log does not have the modelled shape: %s' % e, case, 'correspondence'))
@@ -558,7 +831,8 @@ def thr_special():
 
 
 def base_hist():
-    return {'avg_contenders': {}, 'avg_variant': {}, 'avg_atomic_steps': {}, 'avg_contention': 0,
+    return {'avg_contenders': {}, 'avg_variant': {}, 'avg_atomic_steps': {}, 'avg_contention': 0, 'avg_config': {}, 'avg_values': {},
+            'avg_reports_checked': 0, 'avg_reports_zero_mean': 0, 'avg_lookups_that_waited_for_the_lock': 0, 'avg_not_in_model': 0,
             'thr_callers': {}, 'thr_min_slack': None, 'thr_tight_windows': 0, 'thr_runs_with_sleep': 0, 'thr_attempts': 0}
 
 
@@ -567,6 +841,12 @@ def finish(res, hist):
     res.extra['histogram_averager_variant'] = hist['avg_variant']
     res.extra['histogram_averager_atomic_steps'] = {str(k): v for k, v in sorted(hist['avg_atomic_steps'].items())}
     res.extra['averager_runs_with_a_blocked_BEGIN'] = hist['avg_contention']
+    res.extra['histogram_averager_configuration'] = hist['avg_config']
+    res.extra['histogram_averager_value_class'] = hist['avg_values']
+    res.extra['averager_reports_checked'] = hist['avg_reports_checked']
+    res.extra['averager_reports_of_a_zero_mean'] = hist['avg_reports_zero_mean']
+    res.extra['averager_lookups_that_waited_for_the_write_lock'] = hist['avg_lookups_that_waited_for_the_lock']
+    res.extra['averager_runs_monitor_only_(binary_fractions)'] = hist['avg_not_in_model']
     res.extra['histogram_throttle_callers'] = hist['thr_callers']
     res.extra['throttle_min_slack_observed'] = None if hist['thr_min_slack'] is None else float(hist['thr_min_slack'])
     res.extra['throttle_runs_with_a_tight_window'] = hist['thr_tight_windows']
@@ -579,9 +859,14 @@ def finish(res, hist):
 
 def run(ctx):
     res = fw.Result()
-    res.rule = ('Averager: programs of add(distinct +-2^i)/get/pop for 2-3 threads (own Cache objects, shared Cache, FanoutCache 1/3 shards), '
-                'ALL event-level schedules of a fixed length over two clients plus random bursty schedules, then round-robin; non-trivial = '
-                'at least two adds.  throttle: counts 1-5, periods count*2^k (k=-2..2), 1-3 callers with random arrival gaps from '
+    res.rule = ('Averager: programs of add/get/pop for 2-3 threads (own Cache objects, shared Cache, FanoutCache 1/3 shards) on the configurations default, '
+                'statistics=True, least-recently-used, least-frequently-used (lookups need the write lock on the last three), values distinct +-2^i, or small '
+                'integers with zeros and cancelling values (x then -x; minus the sum so far), or the same over binary fractions (monitor-only); '
+                'ALL event-level schedules of a fixed length over two clients plus random bursty schedules, then round-robin; directed contention: three adds '
+                'against two lookups, the first lookup called after m events of the adder for every (quick: every third) m, on the three lock-taking '
+                'configurations x {own, shared, FanoutCache 1 shard, FanoutCache 3 shards shared/own}; sequential histories of a lone client (a get after '
+                'nearly every add) over series that start with zeros, cancel in two and in three steps, before and after a pop; non-trivial = '
+'at least two adds.  throttle: counts 1-5, periods count*2^k (k=-2..2), 1-3 callers with random arrival gaps from '
                 '{0, 1/8, 1/4, 1/2, 1, 2, 4} s under a virtual clock and random schedules, plus simultaneous bursts of count+2 calls; '
                 'arrivals at and around token boundaries on a clock of integer ticks of 2^-30 s: the bucket drained by a burst, then 1-3 callers '
                 'arriving at (next token due) - eps for eps in {0, 2^-30, 2^-21, 2^-20, 2^-20+2^-24, 2^-19, 2^-10} s (0, ~1 ns, ~0.5 us, ~0.95 us, '
@@ -592,6 +877,7 @@ def run(ctx):
     rng = ctx.rng
     L = 8 if ctx.quick else 11
     acases = list(avg_enum(L)) + [avg_gen(rng) for _ in range(200 if ctx.quick else 2000)]
+    acases += avg_seq_special() + [avg_seq_gen(rng) for _ in range(40 if ctx.quick else 600)] + avg_contention(3 if ctx.quick else 1)
     avg_run(ctx, res, acases, hist)
     tcases = thr_special() + [thr_gen(rng) for _ in range(250 if ctx.quick else 2500)]
     tcases += thr_boundary() + [thr_gen_fine(rng) for _ in range(60 if ctx.quick else 1200)]
@@ -605,7 +891,8 @@ def run(ctx):
 def search(ctx, broken):
     res = fw.Result()
     hist = base_hist()
-    avg_run(ctx, res, list(avg_enum(9)) + [avg_gen(ctx.rng) for _ in range(300)], hist, correspond=False)
+    avg_run(ctx, res, avg_seq_special() + avg_contention(2) + list(avg_enum(9)) + [avg_gen(ctx.rng) for _ in range(300)] + [avg_seq_gen(ctx.rng) for _ in range(100)],
+            hist, correspond=False)
     thr_run(ctx, res, thr_special() + thr_boundary() + [thr_gen(ctx.rng) for _ in range(400)] + [thr_gen_fine(ctx.rng) for _ in range(300)], hist, correspond=False)
     return res
 
